@@ -275,6 +275,12 @@ theorem file_flags :
     fileOpenFlags &&& osAPPEND = 0 ∧ fileOpenFlags &&& osEXCL = 0 ∧
     (fileOpenFlags &&& (osWRONLY ||| osRDWR) = osWRONLY ∨ fileOpenFlags &&& (osWRONLY ||| osRDWR) = osRDWR) := by decide
 
+/-- (round 4) the ten numeric fields of a sample are kept as 64-bit machine integers (`int` on the platforms pandora
+is built for, or `int64`): every value the setters accept — durations in µs up to ±2^63, byte counts beyond 2^31 —
+is written as it was reported; the line theorems (`C06_phout_wellformed`: ALL integer values) and the harness's
+int64 field values rely on it -/
+theorem sample_fields_wide : (sampleFieldsElem = "int" ∨ sampleFieldsElem = "int64") ∧ sampleFieldsLen = 10 := by decide
+
 /-- (round 4) phout's destination is opened for writing, created when missing, TRUNCATED, not appended to, not
 exclusive — whichever of `Fs.Create` / `Fs.OpenFile` the code calls and whichever of O_WRONLY / O_RDWR it asks for:
 a result file never keeps bytes of an earlier run -/
